@@ -27,5 +27,7 @@ def run():
     types.artefacts("quick")
     agg.artefacts("quick")
     wac.artefacts("quick")
+    from . import targets
+    targets.artefacts("quick")
     log("[setup] done")
     return 0
